@@ -222,3 +222,12 @@ pub fn response(
 pub fn error(tid: &[u8], code: i64, msg: &str) -> Vec<u8> {
     Val::dict(vec![("t", Val::b(tid)), ("y", Val::s("e")), ("e", Val::List(vec![Val::Int(code), Val::s(msg)]))]).canon().encode()
 }
+
+/// announce_peer with arbitrary port / implied_port values (what other clients send)
+pub fn announce_peer_raw(tid: &[u8], id: &[u8; 20], info_hash: &[u8; 20], token: &[u8], port: i64, implied_port: Option<i64>) -> Vec<u8> {
+    let mut a = vec![("id", Val::b(id)), ("info_hash", Val::b(info_hash)), ("token", Val::b(token)), ("port", Val::Int(port))];
+    if let Some(i) = implied_port {
+        a.push(("implied_port", Val::Int(i)));
+    }
+    Val::dict(vec![("t", Val::b(tid)), ("y", Val::s("q")), ("q", Val::s("announce_peer")), ("a", Val::dict(a))]).canon().encode()
+}
